@@ -133,7 +133,7 @@ def lib_attr(interp, base, name, state, node, default):
                            (name, base, interp.site(node)))
 
 
-_DATA_ATTRS = {'tzinfo', 'year', 'month', 'day', 'hour', 'minute', 'second',
+_DATA_ATTRS = {'exponent', 'sign', 'digits', 'tzinfo', 'year', 'month', 'day', 'hour', 'minute', 'second',
                'microsecond', 'args', 'real', 'imag', 'numerator',
                'denominator', 'tm_year', 'tm_mon', 'tm_mday', 'tm_hour',
                'tm_min', 'tm_sec', 'tm_isdst', 'tm_zone', 'tm_gmtoff',
